@@ -449,6 +449,43 @@ func editors(r *vlib.Run) {
 			return k%5 == 0
 		})
 		checkFresh(c, "Mesh.EliminateEdges", ee, rng)
+		// the predicate queries the working mesh it is handed (bounds, faces at the edge's ends)
+		// before deciding; collapses are aimed at the extreme vertices so that the bounds move.
+		// Both the working mesh during the edit and the result afterwards must answer like a
+		// fresh mesh of their current faces.
+		small3 := model3d.MarchingCubes(b, delta*2)
+		axis := rng.Intn(3)
+		calls, failed := 0, false
+		ee2 := small3.EliminateEdges(func(tmp *model3d.Mesh, seg model3d.Segment) bool {
+			calls++
+			mn, mx := tmp.Min(), tmp.Max()
+			if !failed && calls%7 == 1 {
+				fmn, fmx := C3{X: math.Inf(1), Y: math.Inf(1), Z: math.Inf(1)}, C3{X: math.Inf(-1), Y: math.Inf(-1), Z: math.Inf(-1)}
+				nfind := 0
+				tmp.Iterate(func(t *model3d.Triangle) {
+					for _, p := range t {
+						fmn, fmx = fmn.Min(p), fmx.Max(p)
+					}
+					if t[0] == seg[0] || t[1] == seg[0] || t[2] == seg[0] {
+						nfind++
+					}
+				})
+				c.Count("editors.queries_during_EliminateEdges", 1)
+				if mn != fmn || mx != fmx {
+					failed = true
+					c.Violation("model3d.Mesh.EliminateEdges/bounds-of-working-mesh", fmt.Sprintf("inside the predicate (call %d) Min/Max = %v %v, the working mesh's faces span %v %v", calls, mn, mx, fmn, fmx), nil)
+				} else if got := len(tmp.Find(seg[0])); got != nfind {
+					failed = true
+					c.Violation("model3d.Mesh.EliminateEdges/Find-on-working-mesh", fmt.Sprintf("inside the predicate (call %d) Find(edge end) returns %d faces, a scan finds %d", calls, got, nfind), nil)
+				}
+			}
+			hi, lo := mx.Array()[axis], mn.Array()[axis]
+			a, bb := seg[0].Array()[axis], seg[1].Array()[axis]
+			return a == hi || bb == hi || a == lo || bb == lo
+		})
+		if !failed {
+			checkFresh(c, "Mesh.EliminateEdges(predicate-queries-working-mesh)", ee2, rng)
+		}
 		rp := small.Repair(delta / 10)
 		checkFresh(c, "Mesh.Repair", rp, rng)
 		sd := model3d.NewSubdivider()
